@@ -251,6 +251,8 @@ def run_property(mod, tier, seed, replay=None):
             msg = None
             if ist != "ok":
                 msg = "implementation side ended with %s (sanitizer report, crash or hang)" % ist
+            elif "badclose" in il:
+                msg = "the library closed a file descriptor that was not open (closed twice or never opened)"
             else:
                 msg = corpus_oracle(s, il) if "corpus" in s.meta else None
                 if msg is None and not is_corpus:
